@@ -34,6 +34,9 @@ CHECKS = {
  "C08": ("model_checking", "bounded-exhaustive metamorphic exploration: every item sequence x every partition into attributes x name assignments x interleaved foreign attributes on compiled receivers; reference forwarding filter",
          "odometer", "for every item sequence up to 3/4 the single-attribute run is the reference; every split over 1..n attributes with every assignment of declared names and every interleaving with 11 unrelated attributes must give the identical value / identical error list, and `attrs` must equal the reference filter's selection (token-identical, ordered)",
          "single-attribute behaviour is C01/C02's subject; path equality is syn::Path equality", "DESIGN.md §4 C08"),
+ "C16": ("exploration", "bounded-exhaustive enumeration of input elements (struct/enum/union bodies, generics, visibility, attribute forms) x every magic-field subset receiver; expectations from syn's parse of the same source",
+         "odometer", "96 compiled receivers (all magic-field subsets of four traits + wrapped flavors) x all struct bodies of 0..3/4 fields over 6 field forms, enums of 0..2/3 variants over 8 forms, unions, 6 generics forms, 5 heads: token equality of every magic member, body kind/style/count/order, exact failure reporting, re-print identity",
+         "syn's parse of the source is the reference for 'the corresponding part of the input'", "DESIGN.md §4 C16"),
 }
 PENDING = {}
 props = [json.loads(l) for l in open(os.path.join(V, "properties.jsonl"))]
